@@ -10,7 +10,12 @@ constructor receive are compared, option by option, with
   * the DIRECT ORACLE = the property's statement evaluated by an independent reference (harness/ref/options_ref.py):
     first source in the documented order, through the documented meaning of the raw text, once.
 Case families: every option × every combination of its sources (and of its alternative flags / file keys);
-the same text through each single source (uniform coercion); two exclusive flags / file keys; unacceptable values.
+the same text through each single source (uniform coercion); two exclusive flags / file keys; unacceptable values;
+SYNTHETIC CUSTOM BACKENDS (harness/impl/c19_synth.py): per seed, backends with generated constructor signatures
+(every kind of annotation, required / defaulted, three ways of naming) found through the namespace package, literal-looking
+raw texts through each single source and through several at once; their rows are instances of the model's schema
+`Options.customBackendRow` (driver: `custom`), and a metamorphic oracle compares what the backend constructor receives
+across sources.
 """
 import concurrent.futures
 import json
@@ -22,6 +27,7 @@ from pathlib import Path
 
 from ..common import REPO, VERIF, WORK, PYMOD, rng_for, digest
 from ..impl.c19_child import tv
+from ..impl import c19_synth as synth
 from ..ref import options_ref as ref
 
 CHILD = VERIF / 'harness' / 'impl' / 'c19_child.py'
@@ -33,13 +39,14 @@ SRC_NO = {'cli': 1, 'env': 2, 'prof': 3, 'dflt': 4}
 META = {'ignore': 0, 'config': 1}     # variant indices of --ignore-config / --config in the row `configuration_file` (set by Tables)
 MISSING = {'t': 'missing'}
 NONE = {'t': 'none'}
+LIVE_TY_OF_MODEL = {'guessType': 'replicat.utils.guess_type'}     # name of the live `type=` function per model type (backend flags)
 POSITIONAL_WORDS = {'path': ['posA', 'posB'], 'snapshot': ['snapA'], 'name': ['benchA'], 'object': ['objA', 'objB']}
 
 
 # ------------------------------------------------------------------------------------------------ tables
-def introspect():
-    env = clean_env({})
-    p = subprocess.run([PY, str(INTROSPECT), str(REPO), str(CUSTOM), str(PYMOD)], capture_output=True, text=True, env=env,
+def introspect(extra_paths=(), extra_backends=()):
+    env = clean_env({'C19_EXTRA_BACKENDS': ','.join(extra_backends)} if extra_backends else {})
+    p = subprocess.run([PY, str(INTROSPECT), str(REPO), str(CUSTOM), *map(str, extra_paths), str(PYMOD)], capture_output=True, text=True, env=env,
                        cwd=str(VERIF), timeout=120)
     if p.returncode != 0:
         raise RuntimeError('introspection failed: ' + p.stderr[-800:])
@@ -95,6 +102,48 @@ class Tables:
                 live = [a for a in live if a is not None and a['default_tv'] is not None]
                 self.builtin[k] = live[0]['default_tv'] if live else NONE
 
+    # ---- synthetic custom backends: rows = instances of the model's schema (`options.custom_row`)
+    def add_synthetic(self, drv, spec, live_backend, root):
+        """register one generated backend; returns the list of structural problems (documented names vs live parser)"""
+        problems = []
+        if not hasattr(self, 'synth'):
+            self.synth, self.synth_rows = {}, []
+        if 'error' in live_backend:
+            return [{'backend': spec['module'], 'not loadable': live_backend['error']}]
+        self.synth[spec['module']] = dict(spec, root=str(root))
+        ref.register_backend(spec['module'], spec['short'])
+        fields = {f['name']: f for f in live_backend.get('fields', [])}
+        if sorted(fields) != sorted(o['name'] for o in spec['options']):
+            problems.append({'backend': spec['module'], 'options': sorted(fields), 'declared': sorted(o['name'] for o in spec['options'])})
+        for o in spec['options']:
+            f = fields.get(o['name'])
+            if f is None:
+                continue
+            names = synth.documented_names(spec, o['name'])
+            custom = {'owner': spec['module'], 'dest': o['name'], 'flag': names['flag'], 'env': names['env'], 'key': names['key'],
+                      'builtinKind': synth.DK[f['default_kind']]}
+            row = drv.ask({'op': 'options.custom_row', 'custom': custom})
+            if 'error' in row:
+                raise RuntimeError('driver: ' + row['error'])
+            row['custom'] = custom
+            row['synth_option'] = {k: o[k] for k in ('name', 'ann', 'ann_src', 'default', 'default_src')}
+            row['synth_option'].update(module_future=spec['future'], decl=spec['decl'])
+            acts = f['actions']
+            live_flags = [a['flags'] for a in acts]
+            live_ty = [a['type'] for a in acts]
+            if live_flags != [[names['flag']]] or f['env'] != names['env'] or f['file_key'] != names['key']:
+                problems.append({'row': [spec['module'], o['name']], 'live': {'flags': live_flags, 'env': f['env'], 'key': f['file_key']},
+                                 'documented': names})
+            if [LIVE_TY_OF_MODEL.get(v['ty']) for v in row['cli']] != live_ty:
+                problems.append({'row': [spec['module'], o['name']], 'annotation': o['ann'], 'flag type (live parser)': live_ty,
+                                 'flag type (model schema)': [v['ty'] for v in row['cli']]})
+            self.synth_rows.append(row)
+            self.by_key[(spec['module'], o['name'])] = row
+            self.builtin[(spec['module'], o['name'])] = f['default_tv']
+            for a in acts:
+                self.live[(spec['module'], a['dest'], (a['flags'] or [''])[0])] = a
+        return problems
+
     def canonical(self, command):
         for c in self.commands:
             if c['name'] == command or command in c['aliases']:
@@ -110,7 +159,7 @@ class Tables:
 
     def rows_for(self, command, backend):
         canon = self.canonical(command)
-        return [r for r in self.rows if r['scope'] in (0, 1) or (r['scope'] == 2 and r['owner'] == backend)
+        return [r for r in self.rows + getattr(self, 'synth_rows', []) if r['scope'] in (0, 1) or (r['scope'] == 2 and r['owner'] == backend)
                 or (r['scope'] == 3 and r['owner'] == canon)]
 
     def structure_check(self):
@@ -296,7 +345,9 @@ def fill(case, tables, r, row, combo, ctx, flavours=None):
         if src == 'cli':
             v = row['cli'][vi]
             if v['kind'] == 'typed':
-                assign(case, row, 'cli', vi, raw_value(r, tables, row, 'cli', v['ty'], ctx, flavours.get('cli')))
+                # a backend option's raw text is a literal-or-text by documentation, whatever `type=` the live flag has
+                assign(case, row, 'cli', vi, raw_value(r, tables, row, 'cli', 'guessType' if row['scope'] == 2 else v['ty'], ctx,
+                                                       flavours.get('cli')))
             elif v['kind'] == 'multi':
                 assign(case, row, 'cli', vi, multi_words(tables, row, v, r))
             else:
@@ -354,9 +405,9 @@ def gen_cases(tables, r, tier):
     scratch_ctx = lambda: {'files': {}}  # noqa: E731
     # ---- A. every option × every combination of its sources
     for ci, command in enumerate(picked):
-        backends = ['vfy'] if quick else ['vfy', 's3c', 'b2', 's3', 'local']
+        backends = ['vfy'] if quick else ['vfy', 'vfa', 's3c', 'b2', 's3', 'local'] if ci % 3 == 0 else ['vfy', 's3c', 'b2', 's3', 'local']
         if quick and ci == 0:
-            backends = ['vfy', 's3c', 'b2', 's3', 'local']
+            backends = ['vfy', 'vfa', 's3c', 'b2', 's3', 'local']
         for backend in backends:
             rows = tables.rows_for(command, backend)
             for row in rows:
@@ -423,7 +474,8 @@ def gen_cases(tables, r, tier):
                     cases.append(c)
     guess_texts = ['abc', '12', "'12'", '"None"', 'none', 'TRUE', '1e3', '0x1F', '[1, "a"]', "{'a': 1}", '(1,)', '1_000', '007', 'a b',
                    "b'xy'", '-', '1+2j', "'unterminated", 'None ', '--x'] if not quick else ['abc', '12', "'12'", '"None"', 'TRUE', '[1, "a"]', '007', "'x"]
-    for backend, dest in [('vfy', 'token'), ('s3c', 'key_id'), ('b2', 'application_key'), ('vfy', 'label')]:
+    for backend, dest in [('vfy', 'token'), ('s3c', 'key_id'), ('b2', 'application_key'), ('vfy', 'label'), ('vfa', 'account_id'),
+                          ('vfa', 'secret')] + ([] if quick else [('vfa', 'tenant'), ('vfa', 'port'), ('vfa', 'legacy'), ('vfa', 'timeout')]):
         row = tables.by_key.get((backend, dest))
         if row is None:
             continue
@@ -498,6 +550,20 @@ def gen_cases(tables, r, tier):
         c['decoys'] = True
         c['_fill'] = ('mixed',)
         cases.append(c)
+    # ---- S. synthetic custom backends (generated signatures): literal-looking texts through each single source, and through
+    #         several sources at once; judged per case like every other backend option AND across cases (synth.judge_groups)
+    for module, spec in sorted(getattr(tables, 'synth', {}).items()):
+        for item in synth.plan(r, spec, tier):
+            row = tables.by_key.get((module, item['dest']))
+            if row is None:
+                continue
+            c = new_case(item['kind'], r.choice(picked), module, r.choice(['explicit', 'explicit', 'default-location']))
+            c['focus'] = [module, item['dest']]
+            c['combo'] = {src: 0 for src in item['texts']}
+            c['synth_texts'] = dict(item['texts'])
+            c['synth_option'] = row['synth_option']
+            c['_fill'] = ('texts', row, dict(item['texts']))
+            cases.append(c)
     return cases
 
 
@@ -516,6 +582,11 @@ def realise(case, tables, r, ctx):
         else:
             fv = row['file'][vi]
             assign(case, row, src, vi, text if fv['kind'] != 'nullIfTrue' else text)
+    elif f[0] == 'texts':
+        _, row, texts = f
+        for src in SRCS:
+            if src in texts:
+                assign(case, row, src, 0, texts[src])
     elif f[0] == 'two-flags':
         _, ra, i, rb, j = f
         case['pair'] = [ra['cli'][i]['flag'], rb['cli'][j]['flag']]
@@ -555,6 +626,10 @@ def realise(case, tables, r, ctx):
             else:
                 fl = None
             fill(case, tables, r, row, combo, ctx, fl)
+    if case['backend'] in getattr(tables, 'synth', {}):
+        sp = tables.synth[case['backend']]
+        case['synth'] = {k: sp[k] for k in ('module', 'cls', 'short', 'decl', 'future', 'options', 'source')}
+        case['extra_paths'] = [sp['root']]
     ensure_backend(case, tables, r, ctx)
     ensure_positionals(case, tables, r)
     # how the configuration file reaches the program = command-line sources of the options `configuration_file` / `profile`
@@ -646,7 +721,7 @@ def materialise(case, tables, cdir):
 
 def execute(case, tables, cdir):
     argv, envx = materialise(case, tables, cdir)
-    spec = {'repo': str(REPO), 'paths': [str(PYMOD), str(CUSTOM)], 'argv': argv, 'cwd': str(cdir)}
+    spec = {'repo': str(REPO), 'paths': [str(PYMOD), str(CUSTOM), *case.get('extra_paths', [])], 'argv': argv, 'cwd': str(cdir)}
     (cdir / 'case.json').write_text(json.dumps(spec))
     try:
         p = subprocess.run([PY, str(CHILD), str(cdir / 'case.json')], capture_output=True, env=clean_env(envx), timeout=120)
@@ -757,8 +832,11 @@ def model_request(case, tables, real, row, cdir):
         fty = next((v['ty'] for v in row['cli'] if v['kind'] in ('typed', 'multi')), None)
         if fty is not None:
             chase(fty, builtin, real.call(fty, row['owner'], builtin['v']))
-    return {'op': 'options.resolve', 'command': case['command'], 'owner': row['owner'], 'dest': row['dest'],
-            'cli': cli, 'env': env, 'prof': secs['prof'], 'dflt': secs['dflt'], 'builtin': builtin, 'co': co}
+    req = {'op': 'options.resolve', 'command': case['command'], 'owner': row['owner'], 'dest': row['dest'],
+           'cli': cli, 'env': env, 'prof': secs['prof'], 'dflt': secs['dflt'], 'builtin': builtin, 'co': co}
+    if row.get('custom'):
+        req['custom'] = row['custom']      # not a row of the generated table: the instance of the schema `customBackendRow`
+    return req
 
 
 def builtin_tv(case, tables, row, cdir):
@@ -1120,7 +1198,7 @@ def run_scenarios(out, base):
 
 
 # ------------------------------------------------------------------------------------------------ entry points
-def run_cases(out, drv, tables, real, cases, base, label):
+def run_cases(out, drv, tables, real, cases, base, label, collect=None):
     r = rng_for(out.seed, 'C19-realise', label)
     for i, c in enumerate(cases):
         c['id'] = f'{label}{i}'
@@ -1134,6 +1212,8 @@ def run_cases(out, drv, tables, real, cases, base, label):
         results = list(ex.map(lambda c: execute(c, tables, base / c['id']), cases))
     for c, res in zip(cases, results):
         cdir = base / c['id']
+        if collect is not None and c['kind'].startswith('synth-'):
+            collect.append((c, res))
         if res['outcome'] in ('timeout', 'crash', 'no-handler'):
             out.disagreement(f"child process: {res['outcome']}", {'case': public(c), 'observed': res})
             continue
@@ -1152,7 +1232,7 @@ def run_cases(out, drv, tables, real, cases, base, label):
                  nontrivial=nsrc >= 2)
         out.count('kind:' + c['kind'])
         out.count('command:' + c['command'])
-        out.count('backend:' + eff_backend)
+        out.count('backend:' + ('<synthetic custom backend>' if eff_backend in getattr(tables, 'synth', {}) else eff_backend))
         out.count('config:' + c['config_mode'])
         out.count('outcome:' + (res['outcome'] if res['outcome'] == 'ok' else observed_error(res)))
         out.count(f'sources-set:{min(nsrc, 5)}{"+" if nsrc >= 5 else ""}')
@@ -1161,6 +1241,15 @@ def run_cases(out, drv, tables, real, cases, base, label):
             frow = tables.by_key[tuple(c['focus'])]
             out.count('focus-scope:' + ['initial', 'common', 'backend', 'command'][frow['scope']])
             out.count('winner:' + winner(c, frow))
+        if c['kind'].startswith('synth-'):
+            so = c['synth_option']
+            out.count('synth:annotation:' + so['ann'] + ('(future-import)' if so['module_future'] and so['ann'] != 'none' else ''))
+            out.count('synth:default:' + so['default'])
+            out.count('synth:class-declaration:' + so['decl'])
+            for t in c['synth_texts'].values():
+                out.count('synth:text:' + synth.TEXT_CLASS.get(t, 'other'))
+            if so['ann'] != 'none' and 'cli' in c['synth_texts'] and synth.TEXT_CLASS.get(c['synth_texts']['cli']) not in ('plain', 'unicode'):
+                out.count('synth:annotated-option-literal-text-on-command-line')
         if reps is None:
             continue
         pair_rejected = False
@@ -1175,9 +1264,11 @@ def run_cases(out, drv, tables, real, cases, base, label):
 
 
 def run(out, drv, info):
-    out.rule = ('case = sub-command × backend (local/s3/s3c/b2/custom vfy) × where the configuration file is (--config, default location, '
+    out.rule = ('case = sub-command × backend (local/s3/s3c/b2/custom vfy/annotated custom vfa/per-seed generated custom backends with '
+                'annotated, defaulted and required options) × where the configuration file is (--config, default location, '
                 '--ignore-config) × for the option in focus every combination "each of its sources unset or set through one of its '
-                'flags / file keys" (+ value flavours, single-source texts, exclusive pairs, random multi-option backgrounds); each case is '
+                'flags / file keys" (+ value flavours, single-source texts, exclusive pairs, random multi-option backgrounds; for generated '
+                'backends: 4 literal-looking texts per option × each single source, and multi-source subsets with distinct texts); each case is '
                 'one fresh process running the real main(); non-trivial = at least two sources set in the case; distinct = hash of '
                 '(argv, env, config text)')
     out.assumptions = [
@@ -1198,21 +1289,44 @@ def run(out, drv, info):
         if problems:
             out.disagreement('the option table compiled into the model differs from the live parsers', {'problems': problems[:5]})
         real = Real()
+        setup_synthetic(out, drv, tables, base, rng_for(out.seed, 'C19-synth'), 4 if out.tier == 'quick' else 24)
         r = rng_for(out.seed, 'C19')
         cases = gen_cases(tables, r, out.tier)
         out.extra['option_rows'] = len(tables.rows)
         out.extra['sub_commands'] = len(tables.command_names())
         # SemOK on the fly: recorded while building requests (see model_request → chase)
         run_scenarios(out, base)
-        run_cases(out, drv, tables, real, cases, base, 'g')
+        synth_pairs = []
+        run_cases(out, drv, tables, real, cases, base, 'g', collect=synth_pairs)
+        synth.judge_groups(out, synth_pairs, lambda t: tv(ref.coerce('literal', t)), lambda t: tv(real.utils.guess_type(t)), public)
         semok_check(out, tables, real)
         # report the sharpest findings first (the runner prints the first five distinct signatures)
         prio = ['options:scenario', 'options:precedence', 'options:exclusive', 'options:file-exclusive', 'options:unacceptable',
-                'options:backend', 'options:unexpected', 'options:compatible', 'options:D14', 'options:D15:backend-coerced-twice:env',
+                'options:backend:coercion-depends-on-source', 'options:backend:custom-precedence', 'options:backend', 'options:unexpected', 'options:compatible', 'options:D14', 'options:D15:backend-coerced-twice:env',
                 'options:profile-vs-default:cache-directory', 'options:D15', 'options:profile-vs-default']
         out.violations.sort(key=lambda v: next((i for i, p in enumerate(prio) if v['sig'].startswith(p)), len(prio)))
     finally:
         shutil.rmtree(pid_dir, ignore_errors=True)
+
+
+def setup_synthetic(out, drv, tables, base, r, n, specs=None):
+    """generate (or, for a replay, re-create) the synthetic custom backends, put them on disk the way the README describes a
+    custom backend, look at the parsers the real code builds for them and register their rows (model: schema instances)"""
+    root = base / 'custom-backends'
+    specs = specs if specs is not None else synth.gen_backends(r, n)
+    for sp in specs:
+        synth.write_backend(root, sp)
+    live = introspect(extra_paths=[root], extra_backends=[sp['module'] for sp in specs])
+    for sp in specs:
+        problems = tables.add_synthetic(drv, sp, live['backends'].get(sp['module'], {'error': 'not introspected'}), root)
+        for pr in problems[:3]:
+            out.disagreement(f"synthetic custom backend {sp['module']}: the live parser differs from the model's schema / the documented names",
+                             {'problem': pr, 'backend_source': sp['source']})
+    out.extra['synthetic_backends'] = [{'module': sp['module'], 'short_name': sp['short'], 'declaration': sp['decl'],
+                                        'future_import': sp['future'],
+                                        'options': [synth.describe(o) for o in sp['options']]}
+                                       for sp in specs][:6]
+    return specs
 
 
 def semok_check(out, tables, real):
@@ -1240,6 +1354,14 @@ def replay(path, drv):
         intro = introspect()
         tables = Tables(drv, intro) if drv is not None else None
         case = json.loads(json.dumps(case).replace(case.get('dir', '\0'), str(cdir)))   # relocate the case directory
+        sibling = rp.get('sibling')
+        if case.get('synth') and tables is not None:
+            # a synthetic custom backend: re-create its module from the source stored in the replay file
+            from ..common import Outcome
+            setup_synthetic(Outcome('C19', 'replay', 0), drv, tables, pid_dir / 'c19', None, 0, specs=[case['synth']])
+            case['extra_paths'] = [tables.synth[case['synth']['module']]['root']]
+            print('backend:', case['synth']['module'], '(generated custom backend; constructor options:',
+                  ', '.join(synth.describe(o) for o in case['synth']['options']) + ')')
         case['files'] = {}
         # file-valued options: re-create the files the raw values point to
         for key, srcs in case['assign'].items():
@@ -1261,6 +1383,18 @@ def replay(path, drv):
         rows = tables.rows_for(case['command'], eff)
         reps = drv.ask_many([model_request(case, tables, real, row, cdir) for row in rows])
         judge(o, case, tables, real, reps, rows, res, cdir)
+        if sibling and sibling.get('synth'):
+            # the metamorphic oracle: the same text through the sibling's source(s)
+            sdir = pid_dir / 'c19' / 'replay-sibling'
+            sdir.mkdir(parents=True, exist_ok=True)
+            sibling = json.loads(json.dumps(sibling).replace(sibling.get('dir', '\0'), str(sdir)))
+            sibling['files'] = {}
+            sibling['extra_paths'] = case['extra_paths']
+            res2 = execute(sibling, tables, sdir)
+            print('sibling argv  :', sibling['argv'], 'env:', sibling['env'], 'config:', sibling['config_text'])
+            print('sibling result:', json.dumps(slim(res2))[:800])
+            synth.judge_groups(o, [(case, res), (sibling, res2)], lambda t: tv(ref.coerce('literal', t)),
+                               lambda t: tv(real.utils.guess_type(t)), public)
         for v in o.violations:
             print('VIOLATES:', v['sig'], '—', v['what'])
         for dd in o.disagreements:
